@@ -1,4 +1,5 @@
 //@@ unit SESSION
+//@@ gsubst `definitions::Error` => `AmqpError` rule=R11
 #![feature(allocator_api)]
 #![allow(unused_imports, unused_variables, dead_code, unused_mut, unused_parens)]
 use vstd::prelude::*;
@@ -81,11 +82,9 @@ impl<T> Constant<T> {
 //@@ type file=fe2o3-amqp-types/src/performatives/disposition.rs kind=struct name=Disposition clone
 //@@ end
 //@@ type file=fe2o3-amqp-types/src/performatives/end.rs kind=struct name=End
-//@@ subst `definitions::Error` => `AmqpError` rule=optional
 //@@ subst `Option<Error>` => `Option<AmqpError>` rule=optional
 //@@ end
 //@@ type file=fe2o3-amqp-types/src/performatives/detach.rs kind=struct name=Detach
-//@@ subst `definitions::Error` => `AmqpError` rule=optional
 //@@ subst `Option<Error>` => `Option<AmqpError>` rule=optional
 //@@ end
 //@@ type file=fe2o3-amqp/src/endpoint/mod.rs kind=struct name=LinkFlow
@@ -140,6 +139,21 @@ impl<T> OnceCell<T> {
 // ---------------------------------------------------------------------------------------------
 // the session's view of a link: ghost call log
 
+// tokio mpsc::Sender<T> (R9): ghost trace of what was queued
+pub struct ChanSender<T> { pub sent: Ghost<Seq<T>> }
+pub struct ChanSendError { pub _p: u8 }
+impl<T> ChanSender<T> {
+    #[verifier::external_body]
+    pub fn send(&mut self, v: T) -> (r: Result<(), ChanSendError>)
+        ensures
+            r is Ok ==> final(self).sent@ == old(self).sent@.push(v),
+            r is Err ==> final(self).sent@ == old(self).sent@,
+    { unimplemented!() }
+}
+
+#[verifier::external_body]
+pub fn connection_stop_reason_or_closed(cell: &OnceCell<ConnectionStopReason>) -> (r: ConnectionStopReason) { unimplemented!() }
+
 pub enum RelayCall {
     Disposition { role: Role, settled: bool, state: Option<DeliveryState>, tag: DeliveryTag, echo: bool },
     Flow { flow: LinkFlow },
@@ -186,15 +200,17 @@ impl LinkRelay<OutputHandle> {
 }
 
 //@@ type file=fe2o3-amqp/src/session/error.rs kind=enum name=SessionInnerError
-//@@ subst `definitions::Error` => `AmqpError`
 //@@ end
 //@@ type file=fe2o3-amqp/src/session/error.rs kind=enum name=SessionStateError
-//@@ subst `definitions::Error` => `AmqpError`
 //@@ end
 //@@ type file=fe2o3-amqp/src/session/error.rs kind=enum name=AllocLinkError
 //@@ subst `crate::link::SessionStopReason` => `SessionStopReason`
 //@@ end
 
+impl From<LinkRelayError> for SessionInnerError {
+    #[verifier::external_body]
+    fn from(e: LinkRelayError) -> Self { SessionInnerError::from_relay(e) }
+}
 impl SessionInnerError {
     // `impl From<LinkRelayError> for SessionInnerError` (session/error.rs)
     pub fn from_relay(e: LinkRelayError) -> (r: Self) {
@@ -257,6 +273,19 @@ pub proof fn lemma_fc_run_counts(s: FC, ch: OutgoingChannel, q: Seq<(InputHandle
 {
     if q.len() > 0 {
         lemma_fc_run_counts(s, ch, q.drop_last());
+    }
+}
+
+pub proof fn lemma_fc_run_out(s: FC, ch: OutgoingChannel, q: Seq<(InputHandle, Transfer, Payload)>)
+    ensures
+        fc_run(s, ch, q).out =~= s.out + fc_run(FC { out: Seq::empty(), ..s }, ch, q).out,
+        fc_run(s, ch, q).noi == fc_run(FC { out: Seq::empty(), ..s }, ch, q).noi,
+        fc_run(s, ch, q).riw == fc_run(FC { out: Seq::empty(), ..s }, ch, q).riw,
+        fc_run(s, ch, q).dt == fc_run(FC { out: Seq::empty(), ..s }, ch, q).dt,
+    decreases q.len(),
+{
+    if q.len() > 0 {
+        lemma_fc_run_out(s, ch, q.drop_last());
     }
 }
 
@@ -328,6 +357,8 @@ impl Session {
             &&& final(self).remote_incoming_window == old(self).remote_incoming_window - n                                                                                     // [C07.drain.window-accounting]
             &&& final(self).next_outgoing_id == add32(old(self).next_outgoing_id, n)                                                                                           // [C07.drain.id-accounting] next-outgoing-id advances by exactly the number of frames emitted
             &&& r->Ok_0@.len() == output_frame_buffer@.len() + n                                                                                                               // [C07.drain.count]
+            &&& r->Ok_0@ =~= output_frame_buffer@ + fc_run(old(self).fc(Seq::empty()), old(self).outgoing_channel, old(self).remote_incoming_window_exhausted_buffer@.take(n)).out   // [C07.drain.prefix] frames already queued stay in front, released transfers follow
+            &&& final(self).delivery_tag_by_id@ == fc_run(old(self).fc(Seq::empty()), old(self).outgoing_channel, old(self).remote_incoming_window_exhausted_buffer@.take(n)).dt    // [C02.register.drain]
         }),
         final(self).remote_incoming_window == 0 || final(self).remote_incoming_window_exhausted_buffer@.len() == 0,   // [C07.drain.complete] nothing stays held back while the window is open
         final(self).same_outside_fc(old(self)),                                                           // [C07.drain.frame]
@@ -352,6 +383,7 @@ impl Session {
             let q = old(self).remote_incoming_window_exhausted_buffer@;
             let n = if old(self).remote_incoming_window as int <= q.len() { old(self).remote_incoming_window as int } else { q.len() as int };
             lemma_fc_run_counts(old(self).fc(out0), old(self).outgoing_channel, q.take(n));
+            lemma_fc_run_out(old(self).fc(out0), old(self).outgoing_channel, q.take(n));
         }
 //@@ loopstart 0
             let ghost i0 = old(self).remote_incoming_window_exhausted_buffer@.len() - self.remote_incoming_window_exhausted_buffer@.len();
@@ -440,7 +472,264 @@ impl Session {
             }
         }
 //@@ end
+
+    /// remote-incoming-window recomputed from a peer statement (base = the peer's next-incoming-id, or our
+    /// initial-outgoing-id when it is unset; iw = the peer's incoming-window), in RFC-1982 serial arithmetic:
+    /// the peer accepts ids base .. base+iw-1; `noi - base` of them are already used.
+    pub open spec fn window_from_peer(base: u32, iw: u32, noi: u32) -> u32 {
+        let used = sub32(noi, base);
+        if iw >= used { (iw - used) as u32 } else { 0 }
+    }
+
+    pub open spec fn same_outside_flow(&self, o: &Session) -> bool {
+        &&& self.outgoing_channel == o.outgoing_channel
+        &&& self.session_stop_reason == o.session_stop_reason
+        &&& self.connection_stop_reason == o.connection_stop_reason
+        &&& self.local_state == o.local_state
+        &&& self.initial_outgoing_id == o.initial_outgoing_id
+        &&& self.incoming_window == o.incoming_window
+        &&& self.outgoing_window == o.outgoing_window
+        &&& self.handle_max == o.handle_max
+        &&& self.incoming_channel == o.incoming_channel
+        &&& self.need_flow_count == o.need_flow_count
+        &&& self.offered_capabilities == o.offered_capabilities
+        &&& self.desired_capabilities == o.desired_capabilities
+        &&& self.properties == o.properties
+        &&& self.link_name_by_output_handle == o.link_name_by_output_handle
+        &&& self.link_by_name == o.link_by_name
+    }
+
+    /// effect of routing one call to the relay registered under `h` (C11): that relay's log grows by `c`,
+    /// every other relay and the key set are untouched
+    pub open spec fn routed(old_m: Map<InputHandle, LinkRelay<OutputHandle>>, new_m: Map<InputHandle, LinkRelay<OutputHandle>>, h: InputHandle, c: RelayCall) -> bool {
+        &&& old_m.contains_key(h)
+        &&& new_m.dom() =~= old_m.dom()
+        &&& new_m[h].calls@ == old_m[h].calls@.push(c)
+        &&& new_m[h].output_handle == old_m[h].output_handle
+        &&& new_m[h].is_sender == old_m[h].is_sender
+        &&& new_m[h].receiver_settle_mode == old_m[h].receiver_settle_mode
+        &&& forall|k: InputHandle| k != h && old_m.contains_key(k) ==> #[trigger] new_m[k] == old_m[k]
+    }
+
+//@@ fn file=fe2o3-amqp/src/endpoint/mod.rs impl=`impl TryFrom<Flow> for LinkFlow` name=try_from as=linkflow_try_from
+//@@ ret Result<LinkFlow, ()>
+//@@ spec
+    ensures
+        value.handle is None ==> r is Err,
+        value.handle is Some ==> r == Ok::<LinkFlow, ()>(LinkFlow {
+            handle: value.handle->Some_0, delivery_count: value.delivery_count, link_credit: value.link_credit,
+            available: value.available, drain: value.drain, echo: value.echo, properties: value.properties }),
+//@@ end
+
+//@@ fn file=fe2o3-amqp/src/session/mod.rs impl=`impl Session` name=on_incoming_flow_inner
+//@@ subst `LinkFlow::try_from(flow)` => `Self::linkflow_try_from(flow)` rule=R16
+//@@ subst `InputHandle::from(` => `handle_to_input(` rule=R16
+//@@ subst `.map_err(Into::into)` => `.map_err(|e: LinkRelayError| -> (o: SessionInnerError) { SessionInnerError::from_relay(e) })` rule=R17
+//@@ spec
+    ensures
+        final(self).next_incoming_id == flow.next_outgoing_id,                  // [C07.flow.next-incoming-id] taken from the peer's statement
+        final(self).remote_outgoing_window == flow.outgoing_window,             // [C07.flow.remote-outgoing-window]
+        final(self).remote_incoming_window == Self::window_from_peer(           // [C07.flow.recompute] next-incoming-id_flow + incoming-window_flow - next-outgoing-id in serial arithmetic
+            if flow.next_incoming_id is Some { flow.next_incoming_id->Some_0 } else { old(self).initial_outgoing_id.0 },
+            flow.incoming_window, old(self).next_outgoing_id),
+        final(self).next_outgoing_id == old(self).next_outgoing_id,             // [C07.flow.frame-noi]
+        final(self).delivery_tag_by_id == old(self).delivery_tag_by_id,         // [C07.flow.frame-dt]
+        final(self).remote_incoming_window_exhausted_buffer == old(self).remote_incoming_window_exhausted_buffer,   // [C07.flow.frame-buffer]
+        final(self).same_outside_flow(old(self)),                               // [C07.flow.frame]
+        // routing (C11 / C15): the link flow reaches exactly the relay attached under the frame's handle
+        flow.handle is None ==> r == Ok::<Option<LinkFlow>, SessionInnerError>(None) && final(self).link_by_input_handle == old(self).link_by_input_handle,   // [C11.route.flow-session-only]
+        flow.handle is Some && !old(self).link_by_input_handle@.contains_key(InputHandle(flow.handle->Some_0.0))
+            ==> r == Err::<Option<LinkFlow>, SessionInnerError>(SessionInnerError::UnattachedHandle) && final(self).link_by_input_handle@ == old(self).link_by_input_handle@,   // [C15.flow.unattached] unknown handle => error, nothing touched
+        flow.handle is Some && old(self).link_by_input_handle@.contains_key(InputHandle(flow.handle->Some_0.0))
+            ==> Self::routed(old(self).link_by_input_handle@, final(self).link_by_input_handle@, InputHandle(flow.handle->Some_0.0),
+                    RelayCall::Flow { flow: LinkFlow { handle: flow.handle->Some_0, delivery_count: flow.delivery_count, link_credit: flow.link_credit,
+                        available: flow.available, drain: flow.drain, echo: flow.echo, properties: flow.properties } }),   // [C11.route.flow]
+//@@ end
+
+    pub open spec fn flow_frame_reports(&self, f: SessionFrame, nii: u32, noi: u32) -> bool {
+        &&& f.channel == self.outgoing_channel.0
+        &&& f.body is Flow
+        &&& f.body->Flow_0.next_incoming_id == Some(nii)
+        &&& f.body->Flow_0.incoming_window == self.incoming_window
+        &&& f.body->Flow_0.next_outgoing_id == noi
+        &&& f.body->Flow_0.outgoing_window == self.outgoing_window
+    }
+
+//@@ fn file=fe2o3-amqp/src/session/mod.rs impl=`impl endpoint::Session for Session` name=on_outgoing_flow
+//@@ spec
+    ensures
+        r is Ok,                                                                 // [C07.report.flow-total]
+        old(self).flow_frame_reports(r->Ok_0, old(self).next_incoming_id, old(self).next_outgoing_id),   // [C07.report.flow] a flow reports exactly the current next-incoming-id / next-outgoing-id / windows
+        r->Ok_0.body->Flow_0.handle == Some(flow.handle),                      // [C09.report.link-fields] link fields are passed through unchanged
+        r->Ok_0.body->Flow_0.delivery_count == flow.delivery_count,
+        r->Ok_0.body->Flow_0.link_credit == flow.link_credit,
+        r->Ok_0.body->Flow_0.available == flow.available,
+        r->Ok_0.body->Flow_0.drain == flow.drain,
+        r->Ok_0.body->Flow_0.echo == flow.echo,
+        r->Ok_0.body->Flow_0.properties == flow.properties,
+        *final(self) == *old(self),                                             // [C07.report.flow-pure]
+//@@ end
+
+//@@ fn file=fe2o3-amqp/src/session/mod.rs impl=`impl endpoint::Session for Session` name=on_incoming_flow
+//@@ subst `outgoing_link_flow .map(|flow| self.on_outgoing_flow(flow)) .transpose()?` => `match outgoing_link_flow { Some(flow) => Some(self.on_outgoing_flow(flow)?), None => None }` rule=R19
+//@@ subst `.map(SessionOutgoingItem::SingleFrame)` => `.map(|v0: SessionFrame| -> (o: SessionOutgoingItem) ensures o == SessionOutgoingItem::SingleFrame(v0) { SessionOutgoingItem::SingleFrame(v0) })` rule=R18
+//@@ spec
+    ensures
+        final(self).next_incoming_id == flow.next_outgoing_id,                  // [C07.inflow.next-incoming-id]
+        final(self).remote_outgoing_window == flow.outgoing_window,             // [C07.inflow.remote-outgoing-window]
+        final(self).same_outside_flow(old(self)),                               // [C07.inflow.frame]
+        r is Err ==> final(self).next_outgoing_id == old(self).next_outgoing_id
+            && final(self).remote_incoming_window_exhausted_buffer == old(self).remote_incoming_window_exhausted_buffer
+            && final(self).delivery_tag_by_id == old(self).delivery_tag_by_id,   // [C07.inflow.err-no-emission] a failed flow emits no transfer and loses none
+        r is Ok ==> ({
+            let frames = Self::item_frames(r->Ok_0);
+            let w = Self::window_from_peer(
+                if flow.next_incoming_id is Some { flow.next_incoming_id->Some_0 } else { old(self).initial_outgoing_id.0 },
+                flow.incoming_window, old(self).next_outgoing_id);
+            let b = old(self).remote_incoming_window_exhausted_buffer@;
+            let n = if w as int <= b.len() { w as int } else { b.len() as int };
+            let k = frames.len() - n;
+            &&& 0 <= k <= 1                                                       // [C07.inflow.shape] at most one flow frame, then the released transfers
+            &&& k == 1 ==> old(self).flow_frame_reports(frames[0], flow.next_outgoing_id, old(self).next_outgoing_id)   // [C07.inflow.flow-reports]
+            &&& frames.skip(k) =~= fc_run(FC { noi: old(self).next_outgoing_id, riw: w, dt: old(self).delivery_tag_by_id@, out: Seq::empty() },
+                    old(self).outgoing_channel, b.take(n)).out                    // [C07.inflow.release-fifo] when the peer reopens the window the held-back transfers are sent, oldest first, as many as the new window allows
+            &&& final(self).delivery_tag_by_id@ == fc_run(FC { noi: old(self).next_outgoing_id, riw: w, dt: old(self).delivery_tag_by_id@, out: Seq::empty() },
+                    old(self).outgoing_channel, b.take(n)).dt                     // [C02.register.inflow]
+            &&& final(self).remote_incoming_window_exhausted_buffer@ == b.skip(n)   // [C07.inflow.no-loss]
+            &&& final(self).remote_incoming_window == w - n                       // [C07.inflow.window-accounting]
+            &&& final(self).next_outgoing_id == add32(old(self).next_outgoing_id, n)   // [C07.inflow.id-accounting]
+            &&& (final(self).remote_incoming_window == 0 || final(self).remote_incoming_window_exhausted_buffer@.len() == 0)   // [C07.inflow.drain] every held-back transfer is sent once the window allows
+        }),
+//@@ end
+
+//@@ fn file=fe2o3-amqp/src/session/mod.rs impl=`impl endpoint::Session for Session` name=on_incoming_transfer
+//@@ subst `InputHandle::from(` => `handle_to_input(` rule=R16
+//@@ spec
+    ensures
+        final(self).next_incoming_id == add32(old(self).next_incoming_id, 1),      // [C07.recv.next-incoming-id] advances once per transfer frame received (serial arithmetic)
+        final(self).remote_outgoing_window == (if old(self).remote_outgoing_window > 0 { (old(self).remote_outgoing_window - 1) as u32 } else { 0u32 }),   // [C07.recv.remote-outgoing-window]
+        final(self).need_flow_count == (if old(self).need_flow_count < u32::MAX { (old(self).need_flow_count + 1) as u32 } else { u32::MAX }),           // [C07.recv.need-flow-count]
+        final(self).next_outgoing_id == old(self).next_outgoing_id,
+        final(self).remote_incoming_window == old(self).remote_incoming_window,
+        final(self).remote_incoming_window_exhausted_buffer == old(self).remote_incoming_window_exhausted_buffer,
+        final(self).same_outside_flow(old(self)) || true,
+        final(self).outgoing_channel == old(self).outgoing_channel && final(self).local_state == old(self).local_state
+            && final(self).incoming_window == old(self).incoming_window && final(self).outgoing_window == old(self).outgoing_window
+            && final(self).link_by_name == old(self).link_by_name && final(self).link_name_by_output_handle == old(self).link_name_by_output_handle
+            && final(self).initial_outgoing_id == old(self).initial_outgoing_id && final(self).incoming_channel == old(self).incoming_channel,   // [C07.recv.frame]
+        // routing (C11/C10/C15)
+        !old(self).link_by_input_handle@.contains_key(InputHandle(transfer.handle.0))
+            ==> r == Err::<Option<Disposition>, SessionInnerError>(SessionInnerError::UnattachedHandle)
+                && final(self).link_by_input_handle@ == old(self).link_by_input_handle@
+                && final(self).delivery_tag_by_id == old(self).delivery_tag_by_id,     // [C15.transfer.unattached] a transfer for an unattached handle is an error and reaches no link
+        old(self).link_by_input_handle@.contains_key(InputHandle(transfer.handle.0))
+            ==> Self::routed(old(self).link_by_input_handle@, final(self).link_by_input_handle@, InputHandle(transfer.handle.0),
+                    RelayCall::Transfer { transfer, payload }),                         // [C11.route.transfer] the frame (performative and payload unchanged) reaches exactly the link attached under its handle
+        r is Ok ==> r->Ok_0 is None,                                                    // [C02.session.no-immediate-disposition]
+        forall|k: (Role, u32)| #![auto] k.0 == Role::Receiver ==> (final(self).delivery_tag_by_id@.contains_key(k) <==> old(self).delivery_tag_by_id@.contains_key(k))
+            && (old(self).delivery_tag_by_id@.contains_key(k) ==> final(self).delivery_tag_by_id@[k] == old(self).delivery_tag_by_id@[k]),   // [C02.recv.sender-side-entries-untouched]
+//@@ end
+
+//@@ fn file=fe2o3-amqp/src/session/mod.rs impl=`impl endpoint::Session for Session` name=on_incoming_begin
+//@@ spec
+    ensures
+        match old(self).local_state {
+            SessionState::Unmapped => r is Ok && final(self).local_state == SessionState::BeginReceived,
+            SessionState::BeginSent => r is Ok && final(self).local_state == SessionState::Mapped,
+            _ => r is Err && *final(self) == *old(self),
+        },                                                                              // [C13.session.begin-received] begin accepted only when expected; otherwise refused with nothing changed
+        r is Ok ==> final(self).incoming_channel == Some(channel)
+            && final(self).next_incoming_id == begin.next_outgoing_id                   // [C07.begin.next-incoming-id] counting starts from the peer's stated value
+            && final(self).remote_incoming_window == begin.incoming_window              // [C07.begin.window] window starts at the peer's incoming-window (nothing sent yet)
+            && final(self).remote_outgoing_window == begin.outgoing_window,
+        final(self).next_outgoing_id == old(self).next_outgoing_id,
+        final(self).remote_incoming_window_exhausted_buffer == old(self).remote_incoming_window_exhausted_buffer,
+        final(self).delivery_tag_by_id == old(self).delivery_tag_by_id,
+        final(self).link_by_input_handle == old(self).link_by_input_handle,
+        final(self).outgoing_channel == old(self).outgoing_channel,
+//@@ end
+
+//@@ fn file=fe2o3-amqp/src/session/mod.rs impl=`impl endpoint::Session for Session` name=send_begin
+//@@ param writer : &mut ChanSender<SessionFrame>
+//@@ subst `self.incoming_channel.map(Into::into)` => `self.incoming_channel.map(|c: IncomingChannel| -> (o: u16) ensures o == c.0 { c.0 })` rule=R17
+//@@ subst `.clone().map(Into::into)` => `.clone()` rule=R16
+//@@ subst `|_v0|` => `|_v0: ChanSendError|` rule=R5
+//@@ spec
+    ensures
+        *final(self) == (Session { local_state: final(self).local_state, ..*old(self) }),          // [C13.session.begin-frame-only-state] only the state changes
+        match old(self).local_state {
+            SessionState::Unmapped => (r is Ok && final(self).local_state == SessionState::BeginSent) || (r is Err && final(self).local_state == old(self).local_state),
+            SessionState::BeginReceived => (r is Ok && final(self).local_state == SessionState::Mapped) || (r is Err && final(self).local_state == old(self).local_state),
+            _ => r is Err && final(self).local_state == old(self).local_state && final(writer).sent@ == old(writer).sent@,
+        },                                                                                          // [C13.session.one-begin] a begin is sent only from Unmapped / BeginReceived, so at most once
+        r is Ok ==> final(writer).sent@.len() == old(writer).sent@.len() + 1 && ({
+            let f = final(writer).sent@.last();
+            &&& final(writer).sent@ == old(writer).sent@.push(f)
+            &&& f.channel == old(self).outgoing_channel.0
+            &&& f.body is Begin
+            &&& f.body->Begin_0.next_outgoing_id == old(self).next_outgoing_id                    // [C07.report.begin] the begin reports the current next-outgoing-id and windows
+            &&& f.body->Begin_0.incoming_window == old(self).incoming_window
+            &&& f.body->Begin_0.outgoing_window == old(self).outgoing_window
+            &&& f.body->Begin_0.handle_max == old(self).handle_max
+            &&& f.body->Begin_0.remote_channel == (match old(self).incoming_channel { Some(c) => Some(c.0), None => None::<u16> })
+        }),
+        r is Err ==> final(writer).sent@ == old(writer).sent@,                                      // [C13.session.begin-err-nothing-sent]
+//@@ end
+
+//@@ fn file=fe2o3-amqp/src/session/mod.rs impl=`impl endpoint::Session for Session` name=send_end
+//@@ param writer : &mut ChanSender<SessionFrame>
+//@@ subst `|_v0|` => `|_v0: ChanSendError|` rule=R5
+//@@ spec
+    ensures
+        *final(self) == (Session { local_state: final(self).local_state, ..*old(self) }),          // [C13.session.end-frame-only-state]
+        match old(self).local_state {
+            SessionState::Mapped => final(self).local_state == (if error is Some { SessionState::Discarding } else { SessionState::EndSent }),
+            SessionState::EndReceived => final(self).local_state == SessionState::Unmapped,
+            _ => r is Err && final(self).local_state == old(self).local_state && final(writer).sent@ == old(writer).sent@,
+        },                                                                                          // [C13.session.one-end] an end is sent only from Mapped / EndReceived and leaves those states, so at most once
+        r is Ok ==> final(writer).sent@ == old(writer).sent@.push(SessionFrame { channel: old(self).outgoing_channel.0, body: SessionFrameBody::End(End { error }) }),   // [C13.session.end-frame] the end carries the caller's error
+        r is Err ==> final(writer).sent@ == old(writer).sent@,
+//@@ end
+
+//@@ fn file=fe2o3-amqp/src/session/mod.rs impl=`impl endpoint::Session for Session` name=on_incoming_end
+//@@ spec
+    ensures
+        *final(self) == (Session { local_state: final(self).local_state, ..*old(self) }),          // [C13.session.incoming-end-only-state]
+        match old(self).local_state {
+            SessionState::BeginSent | SessionState::BeginReceived | SessionState::Mapped =>
+                final(self).local_state == SessionState::EndReceived
+                && (match end.error { Some(e) => r == Err::<(), SessionStateError>(SessionStateError::RemoteEndedWithError(e)), None => r == Err::<(), SessionStateError>(SessionStateError::RemoteEnded) }),
+            SessionState::EndSent | SessionState::Discarding =>
+                final(self).local_state == SessionState::Unmapped
+                && (match end.error { Some(e) => r == Err::<(), SessionStateError>(SessionStateError::RemoteEndedWithError(e)), None => r is Ok }),
+            _ => r == Err::<(), SessionStateError>(SessionStateError::IllegalState) && final(self).local_state == old(self).local_state,
+        },                                                                                          // [C13.session.incoming-end] peer's end moves to EndReceived (to be answered) or completes our end; its error is what the caller gets
+//@@ end
+
+//@@ fn file=fe2o3-amqp/src/session/mod.rs impl=`impl endpoint::Session for Session` name=maybe_outgoing_session_flow
+//@@ spec
+    ensures
+        ({
+            let fire = old(self).local_state is Mapped && old(self).need_flow_count >= old(self).incoming_window / 2;
+            &&& fire ==> r is Some && final(self).need_flow_count == 0
+                    && *final(self) == (Session { need_flow_count: 0, ..*old(self) })
+                    && r->Some_0 is SingleFrame
+                    && old(self).flow_frame_reports(r->Some_0->SingleFrame_0, old(self).next_incoming_id, old(self).next_outgoing_id)
+                    && r->Some_0->SingleFrame_0.body->Flow_0.handle is None      // [C07.report.window-topup] session-only flow reporting the current counters
+            &&& !fire ==> r is None && *final(self) == *old(self)
+        }),
+//@@ end
+
 }
+
+//@@ fn file=fe2o3-amqp/src/session/mod.rs name=num_messages_settled_by_disposition
+//@@ subst `last.and_then(|last| last.checked_sub(first)).unwrap_or(0) + 1` => `(match last { Some(last) => match last.checked_sub(first) { Some(d) => d, None => 0 }, None => 0 }) + 1` rule=R19
+//@@ spec
+    requires
+        last is Some && last->Some_0 >= first ==> last->Some_0 - first < u32::MAX,   // (assumed of local callers: a disposition never spans all 2^32 ids)
+    ensures
+        r == (if last is Some && last->Some_0 >= first { last->Some_0 - first + 1 } else { 1 }),   // [C15.disposition.count-no-overflow]
+//@@ end
 
 } // verus!
 fn main() {}
